@@ -289,7 +289,7 @@ static void compare_nodes (char *name1, double id1, char *name2, double id2)
 {
     int n1, n2, nc1, nc2, nret;
     char *p, *children1 = NULL, *children2 = NULL;
-    char path1[1024], path2[1024];
+    char *path1, *path2;
     double cid1, cid2;
 
     /* the root nodes carry format specific labels ("Root Node of ADF File",
@@ -365,12 +365,20 @@ static void compare_nodes (char *name1, double id1, char *name2, double id2)
         }
         if (cgio_get_node_id (cgio1, id1, p, &cid1))
             err_exit (name1, "cgio_get_node_id");
+        path1 = (char *) malloc (strlen (name1) + 35);
+        path2 = (char *) malloc (strlen (name2) + 35);
+        if (path1 == NULL || path2 == NULL) {
+            fprintf (stderr, "%s:malloc failed for node path\n", name1);
+            exit (1);
+        }
         sprintf (path1, "%s/%s", name1, p);
         p = &children2[33*n2];
         if (cgio_get_node_id (cgio2, id2, p, &cid2))
             err_exit (name2, "cgio_get_node_id");
         sprintf (path2, "%s/%s", name2, p);
         compare_nodes (path1, cid1, path2, cid2);
+        free (path1);
+        free (path2);
         n2++;
     }
     while (n2 < nc2) {
